@@ -573,6 +573,7 @@ func rulesC12(cx *Ctx) []Obligation {
 	}
 	// positional content of the initial caps slice
 	obs = append(obs, ruleCapsOrder(r, capFamilies)...)
+	obs = append(obs, ruleMerkleDigestChain(cx)...)
 	return obs
 }
 
@@ -928,6 +929,7 @@ func rulesC13(cx *Ctx) []Obligation {
 		obs = append(obs, bad(key, desc, "the loop over query rounds does not cover every round (start, bound, early exit) or the length equality guard is missing"))
 	}
 	obs = append(obs, ruleBatchShift(cx)...)
+	obs = append(obs, ruleRunningEvaluation(cx)...)
 	return obs
 }
 
